@@ -2,6 +2,7 @@
 From Coq Require Import List NArith ZArith Bool Arith String.
 Import ListNotations.
 Require Import Scan Parse Construct StandaloneLemmas.
+Require Emit EmitGrows EmitLemmas EmitPrefix.
 
 (* KIND C12_doc_indicator_only_at_column_0 : U *)
 (* in EVERY scanner state: '---' / '...' is recognised as a document boundary only at column 0 *)
@@ -23,6 +24,14 @@ Example C12_examples :
   List.length (fst (load_all false [34; 97; 32; 45; 45; 45; 32; 98; 34; 10]%N)) = 1 /\
   List.length (fst (load_all false [97; 58; 32; 45; 45; 45; 10]%N)) = 1.
 Proof. vm_compute. repeat split; reflexivity. Qed.
+
+(* KIND C12_emit_prefix_monotone : U *)
+(* the emitter model's output is append-only (46 generated lemmas, one per function of Model/Emit.v: every run - returning, raising EmitterError or crashing - only
+   conses chunks onto the output).  Hence for ALL event lists and ALL states: the chunks written for a prefix of the events are a prefix of the chunks written for
+   the whole stream, also when the run ends in an error *)
+Theorem C12_emit_prefix_monotone : forall es1 es2 s, exists d, fst (Emit.emit_all (es1 ++ es2)%list s) = (fst (Emit.emit_all es1 s) ++ d)%list.
+Proof. exact EmitPrefix.l_emit_prefix_monotone. Qed.
+Eval vm_compute in "ASSUME:C12_emit_prefix_monotone"%string. Print Assumptions C12_emit_prefix_monotone.
 
 (* PARTIAL: doc_markers / no_marker_inside / doc_text_prefix_stable on the emitter model and parser_doc_count are not proved; decided by the exact-text
    emitter correspondence, the parse correspondence and the direct dump_all/serialize_all/emit -> load_all/compose_all/parse run (n in = n out, each
